@@ -141,6 +141,49 @@ def _case(args):
     return n, res
 
 
+def _shapes(algo):
+    """Contents with long runs of one byte value (zero blocks at the head, the tail, everywhere, alternating) at sizes that
+    are exact multiples of the read-block sizes: what a 'sparse file' or run-length shortcut in the copy loop would mishandle.
+    (The position-dependent pattern of the other cases never yields a block of equal bytes.)"""
+    from hashstore.filehashstore import FileHashStore
+    root = os.path.join(common.scratch(), "c01-shapes-" + algo)
+    store = FileHashStore(common.props(root, algo=algo))
+    hl = STORE_ALGOS[algo]
+    B = os.stat(common.scratch()).st_blksize
+    res, n = [], 0
+    for blk in sorted({B, 8192, 65536}):
+        nz = pattern(blk, 3)
+        z = bytes(blk)
+        ff = b"\xff" * blk
+        shapes = {"all zero": z * 3, "zero tail": nz + z + z, "zero head": z + z + nz, "alternating": z + nz + z + nz + z,
+                  "one zero block": z, "0xff tail": nz + ff + ff, "zero tail + 1": nz + z + b"\0", "zero tail - 1": nz + z[:-1]}
+        for sname, data in shapes.items():
+            for kind in ("str", "buffered"):
+                n += 1
+                pid = "shape:%d:%s:%s" % (blk, sname, kind)
+                path = os.path.join(common.scratch(), "c01_shape_%s_%d_%s.bin" % (hl, blk, sname.replace(" ", "_")))
+                with open(path, "wb") as f:
+                    f.write(data)
+                arg = path if kind == "str" else io.BufferedReader(io.BytesIO(data))
+                errs = []
+                try:
+                    md = store.store_object(pid, arg)
+                    if md.cid != hashlib.new(hl, data).hexdigest():
+                        errs.append("cid is not the digest of the content")
+                    if md.obj_size != len(data):
+                        errs.append("reported size %d != %d" % (md.obj_size, len(data)))
+                    r = store.retrieve_object(pid)
+                    if r.read() != data:
+                        errs.append("retrieve_object returned different bytes")
+                    r.close()
+                except Exception as e:  # noqa: BLE001
+                    errs.append("store/retrieve raised %s" % type(e).__name__)
+                for e in errs:
+                    res.append(({"kind": "roundtrip", "part": "shapes", "what": e, "shape": sname},
+                                {"algo": algo, "block": blk, "shape": sname, "arg": kind}))
+    return n, res
+
+
 class C01Spec(ModelSpec):
     """Witness pids w1/w2/w3 hold contents A/B/C; the alphabet acts on other pids only."""
     prop = "C01"
@@ -245,6 +288,12 @@ def main(tier):
         n += cnt
         for sig, det in res:
             rep.violation(sig, det)
+    nshape = 0
+    for cnt, res in pmap(_shapes, algos):
+        nshape += cnt
+        for sig, det in res:
+            rep.violation(sig, det)
+    rep.coverage["content_shape_cases"] = nshape
     rep.coverage.update({"input_cases": n, "sizes": sz, "kinds": KINDS, "algorithms": algos})
     run_spec(rep, C01Spec(tier), "witness-histories", time_cap=120 if tier == "quick" else 3000)
     from ._t import line_level_part
